@@ -6,7 +6,7 @@ from vf import gen_table as T
 from vf import oracles as O
 from vf import refderive as R
 from vf import refsmiles
-from vf.core import Fail, Result
+from vf.core import Fail, Result, call
 
 ID = "C06"
 LEVEL = "exploration"
@@ -50,11 +50,29 @@ def evaluate(case):
     nontrivial = False
     nonstrict = []
     strict_results = []
-    for step in case["steps"]:
+    mutate_after = case.get("mutate_passed", [])
+    for k, step in enumerate(case["steps"]):
         O.forget_table()
-        table = O.use_table(step)
-        if table is None:
-            return Result(skipped="table not accepted by the library")
+        if isinstance(step, str):
+            table = O.use_table(step)
+            if table is None:
+                return Result(skipped="table not accepted by the library")
+        else:
+            # the caller keeps (and may later edit) the dict it passed: the table in force is what was passed
+            # at the time of the call (C12), which is what the verdict is computed from
+            passed = dict(step)
+            r0 = call(sf.set_semantic_constraints, passed)
+            if r0[0] != "ok":
+                return Result(skipped="table not accepted by the library")
+            if k < len(mutate_after) and mutate_after[k]:
+                for key in list(passed):
+                    passed[key] = (passed[key] + 3) if mutate_after[k] == 1 else 0
+                classes.add("caller_edits_passed_dict_after_set")
+            table = dict(step)
+            got = sf.get_semantic_constraints()
+            if got != table:
+                fail = Fail("table_in_force_differs_from_table_set", set=_short(table), read_back=_short(got))
+                break
         worst = None
         at_edge = False
         for el, q, u in us:
@@ -135,7 +153,7 @@ def gen_case(ch):
             if ch.bool(65):
                 t[key] = max(0, u + ch.pick([-1, 0, 0, 1]))
         steps.append(t)
-    return dict(smiles=w["smiles"], truth=truth, steps=steps)
+    return dict(smiles=w["smiles"], truth=truth, steps=steps, mutate_passed=[ch.weighted([(6, 0), (1, 1), (1, 2)]) for _ in steps])
 
 
 def shard(ctx):
